@@ -3,6 +3,14 @@
 property's text and its scratch worktree; nothing from /verif)."""
 import json, sys
 pid = sys.argv[1]
+la, lb = (sys.argv[2], sys.argv[3]) if len(sys.argv) > 3 else ("a", "b")
+import os, glob
+prior = []
+for d in sorted(glob.glob("/verif/seeded/%s?" % pid)):
+    if d[-1] in (la, lb): continue
+    try: prior.append("  - " + json.load(open(d + "/meta.json")).get("summary", "")[:260].replace("\n", " "))
+    except Exception: pass
+PRIOR = ("\n\nOther authors have ALREADY produced the following changes for this property; yours must have different root causes AND exercise a different aspect of the property (a different function, a different step of the sequence, a different kind of input) than all of these:\n" + "\n".join(prior) + "\n") if prior and la != "a" else ""
 p = [json.loads(l) for l in open('/verif/properties.jsonl') if json.loads(l)['id'] == pid][0]
 print(f"""You are helping evaluate a verification effort for the open-source project google/mtail (a Go log-tailing daemon that compiles a small DSL to bytecode, runs it in a VM per log line, and exports metrics). Your job: act as a realistic "bug author".
 
@@ -17,9 +25,9 @@ Here is a semantic property of mtail that is supposed to hold:
   Quantified over: {p['quantifier']['text']}
   Code it is anchored in: {', '.join(p['anchors']['files'])}
 
-TASK: produce TWO independent, different source changes to google/mtail (non-test Go files), call them variant "a" and variant "b", each of which BREAKS this property while (1) still compiling (`go build ./...`) and (2) still passing the ENTIRE existing test suite unchanged. Each change should look like a plausible mistake, refactoring slip, or "optimisation" a developer could make (a few lines), not sabotage with magic constants. Prefer changes that need something SPECIFIC to manifest -- a particular interleaving, a crash or fault at a particular point, a multi-step sequence of operations, an unusual input, or two cooperating sites that each look fine alone -- rather than ones that ordinary use would expose at once. The two variants should have different root causes (different functions / different aspect of the property).
+TASK: produce TWO independent, different source changes to google/mtail (non-test Go files), call them variant "{la}" and variant "{lb}", each of which BREAKS this property while (1) still compiling (`go build ./...`) and (2) still passing the ENTIRE existing test suite unchanged. Each change should look like a plausible mistake, refactoring slip, or "optimisation" a developer could make (a few lines), not sabotage with magic constants. Prefer changes that need something SPECIFIC to manifest -- a particular interleaving, a crash or fault at a particular point, a multi-step sequence of operations, an unusual input, or two cooperating sites that each look fine alone -- rather than ones that ordinary use would expose at once. The two variants should have different root causes (different functions / different aspect of the property).{PRIOR}
 
-For each variant X in {{a, b}} deliver a directory /tmp/seeded/{pid}X/ containing:
+For each variant X in {{{la}, {lb}}} deliver a directory /tmp/seeded/{pid}X/ containing:
   - patch.diff : output of `git diff` in the worktree for that variant alone (applies with `git apply` to a clean checkout of the pinned commit; source changes only, no test files)
   - demo_test.go (or a small main program) : a demonstration that FAILS with the change applied and PASSES on the unmodified tree; say in meta.json in which directory of the repo it has to be placed and the exact command to run it
   - meta.json : {{"property": "{pid}", "variant": "X", "summary": "...what was changed and why it breaks the property...", "needs_to_manifest": "...the specific input / sequence / interleaving / fault needed...", "demo_location": "...", "demo_cmd": "...", "suite_result": "...what you ran and observed..."}}
